@@ -192,6 +192,93 @@ class MatchAPI(Family):
                 ctx.claim("idempotent", ctx.eq(res2[i], res[i]), {"i": i})
 
 
+class MatchLong(Family):
+    """More intervals: concrete reference positions (on and off the grid), symbolic values."""
+    name = "match-api-many-intervals"
+
+    def __init__(self, which):
+        self.which = which
+
+    def configs(self, tier):
+        out = []
+        rules = [("trapezoid", "rectangle"), ("rectangle", "rectangle"), ("trapezoid", "trapezoid"), ("rectangle", "trapezoid")]
+        alphas = ["1", "2", "1/2", "3/2"]
+        i = 0
+        for N, M in ((9, 4), (13, 5)) if tier == "quick" else ((9, 4), (11, 4), (13, 5), (17, 6)):
+            for grid in gap_grids(N, tier, limit=1 if tier == "quick" else 3):
+                span = grid[-1] - grid[0]
+                for off in (0, 1):
+                    # reference positions spread over the range; `off` moves the inner ones off the grid
+                    pos = [grid[0] + span * k / (M - 1) + (Fraction(off, 7) if 0 < k < M - 1 else 0) for k in range(M)]
+                    for mode in ("closest", "lower", "higher", "positions-subset", "indices-subset"):
+                        i += 1
+                        tr, rr = rules[i % 4]
+                        if tier == "quick" and mode in ("lower", "higher") and i % 2:
+                            continue
+                        out.append({"N": N, "grid": [str(g) for g in grid], "pos": [str(p) for p in pos], "mode": mode,
+                                    "trule": tr, "rrule": rr, "alpha": alphas[i % 4]})
+        return out
+
+    def run(self, ctx, inst, N, grid, pos, mode, trule, rrule, alpha):
+        from traffic_weaver import match
+        alpha_f = Fraction(alpha)
+        alpha_arg = ctx.const(alpha_f) if ctx.symbolic else float(alpha_f)
+        gx, gp = [Fraction(g) for g in grid], [Fraction(p) for p in pos]
+        M = len(gp)
+        x, xr = cx(ctx, gx), cx(ctx, gp)
+        ys, rs = ctx.reals("y", N), ctx.reals("r", M)
+        y_in = list(ys)
+        kw = {}
+        if mode in ("closest", "lower", "higher"):
+            F = [O_SEARCH[mode](gx, q) for q in gp]
+            R = list(range(M))
+            kw["fixed_points_finding_strategy"] = mode
+        else:
+            # explicit fixed points: a strict subset of the samples closest to the reference points, so that more
+            # than one reference gap lies between two fixed points
+            allF = [o_closest(gx, q) for q in gp]
+            keep = [0, M // 2, M - 1]
+            F = [allF[k] for k in keep]
+            R = [o_closest(gp, gx[f]) for f in F]
+            if mode == "positions-subset":
+                kw["fixed_points_in_x"] = [x[f] for f in F]
+            else:
+                kw["fixed_points_indices_in_x"] = list(F)
+        for a, b in zip(F, F[1:]):
+            ctx.assume(b - a >= 2)
+        for a, b in zip(R, R[1:]):
+            ctx.assume(b > a)
+        res = match.integral_matching_reference_stretch(x, arr(ctx, ys), xr, arr(ctx, rs), target_function_integral_method=trule,
+                                                        reference_function_integral_method=rrule, alpha=alpha_arg, **kw)
+        ctx.note("res", res)
+        X = [Sym.lift(g) for g in gx] if ctx.symbolic else [float(g) for g in gx]
+        P = [Sym.lift(g) for g in gp] if ctx.symbolic else [float(g) for g in gp]
+        if self.which == "C01":
+            for k in range(len(F) - 1):
+                exp = o_integral(P, list(rs), rrule, R[k], R[k + 1])
+                got = o_integral(X, list(res), trule, F[k], F[k + 1])
+                ctx.claim("interval-integral", ctx.eq(got, exp), {"k": k, "F": F, "R": R, "mode": mode})
+        else:
+            for i in range(N):
+                if i <= F[0] or i >= F[-1]:
+                    ctx.claim("outside-span-unchanged", ctx.same(res[i], y_in[i]), {"i": i, "F": F})
+            for f in F:
+                ctx.claim("fixed-point-unchanged", ctx.same(res[f], y_in[f]), {"f": f, "F": F})
+            for k in range(len(F) - 1):
+                a, b = F[k], F[k + 1]
+                c, width = (gx[a] + gx[b]) / 2, gx[b] - gx[a]
+                ids = list(range(a + 1, b))
+                W = {i: 1 - o_pow(ctx, Sym.lift(2 * abs(gx[i] - c) / width) if ctx.symbolic else float(2 * abs(gx[i] - c) / width),
+                                  alpha_f if ctx.symbolic else float(alpha_f)) for i in ids}
+                D = {i: res[i] - y_in[i] for i in ids}
+                for i, j in zip(ids, ids[1:]):
+                    ctx.claim("profile-proportional", ctx.eq(D[i] * W[j], D[j] * W[i]), {"i": i, "j": j, "F": F})
+            res2 = match.integral_matching_reference_stretch(x, res, xr, arr(ctx, rs), target_function_integral_method=trule,
+                                                             reference_function_integral_method=rrule, alpha=alpha_arg, **kw)
+            for i in range(N):
+                ctx.claim("idempotent", ctx.eq(res2[i], res[i]), {"i": i})
+
+
 class Kernel(Family):
     """_integral_matching_stretch (the stretching kernel) with symbolic abscissae as well."""
     name = "match-kernel-symbolic-x"
